@@ -1075,7 +1075,7 @@ void ipv6_chain_program(IPv6& v6, Src& s, std::vector<std::string>& prog) {
 
 template <class I>
 void rfc4884_program(I& ic, bool v6, Src& s, std::vector<std::string>& prog) {
-    if (!s.chance(55)) return;
+    if (!s.chance(75)) return;
     if (s.chance(80)) {
         static const uint8_t T4[] = {3, 11, 12, 11};
         unsigned t = v6 ? (s.chance(20) ? 1 : 3) : T4[s.pick(4)];
@@ -1084,7 +1084,7 @@ void rfc4884_program(I& ic, bool v6, Src& s, std::vector<std::string>& prog) {
     }
     if (s.boolean()) { ic.use_length_field(true); prog.push_back("use_length_field(true)"); }
     static const uint8_t PL[] = {4, 0, 1, 2, 3, 5, 8, 12, 16, 33};
-    unsigned ne = (unsigned)s.weighted({3, 4, 2, 1});
+    unsigned ne = (unsigned)s.weighted({2, 4, 3, 1});
     for (unsigned i = 0; i < ne; ++i) {
         ICMPExtension e((uint8_t)s.edgy(8), (uint8_t)s.edgy(8));
         std::vector<uint8_t> d = s.bytes(PL[s.pick(sizeof PL)]);
@@ -1143,7 +1143,7 @@ void shape_payload(PDU& root, Src& s, Ctx& ctx, std::vector<std::string>& prog, 
 // (UDP must then transmit 0xffff), or the accumulator needs a second end-around carry - for a big-endian accumulator over
 // pseudo-header + segment, or for a little-endian (host order on x86) accumulator over the segment alone.
 void solve_sums(PDU& root, Src& s, Ctx& ctx, std::vector<std::string>& prog) {
-    unsigned mode = (unsigned)s.weighted({4, 5, 2, 2, 2});
+    unsigned mode = (unsigned)s.weighted({3, 5, 3, 3, 2});
     if (mode == 0) return;
     unsigned sub = (unsigned)s.range(0, 2);
     std::vector<Lay> m;
@@ -1163,6 +1163,7 @@ void solve_sums(PDU& root, Src& s, Ctx& ctx, std::vector<std::string>& prog) {
     } else {
         for (size_t i = 0; i < m.size(); ++i) if (m[i].proto == dis::P_TCP || m[i].proto == dis::P_UDP || m[i].proto == dis::P_ICMP || m[i].proto == dis::P_ICMP6) t_idx = (int)i;
         if (t_idx < 0) return;
+        if (m[t_idx].proto == dis::P_UDP && mode != 1 && s.chance(45)) mode = 1;   // RFC 768: a computed 0 is transmitted as 0xffff
         from = m[t_idx].off; to = m[t_idx].end;
         field_off = from + (m[t_idx].proto == dis::P_TCP ? 16 : m[t_idx].proto == dis::P_UDP ? 6 : 2);
         bool port_word = false;
